@@ -61,6 +61,21 @@ CHECKS = {
  "C19": ("p2v-inproc", "proptest pcap-file generator x random interleavings of pcap_read_next / pcap_read_all(f[, n]); truncation at every byte offset; header corruption; write round trip; differential against a reference pcap reader",
          "Generated pcap files (both magics, any snaplen, record sizes placed so that records and record headers straddle the 8 KiB reader buffer) are read by generated scripts; every call result and the file object's header properties are compared with a reference reader. Small files are cut at every byte offset and headers are corrupted: exactly the complete records, then null or an error object, never a crash. Packets copied with pcap_write are parsed back by the reference reader and by p2sh.",
          "the global header of a written file and reads after the first error object on a corrupted file are don't-care; one open known finding (records above 65535 bytes)", "DESIGN.md §4 C19"),
+ "C20": ("p2v-e2e", "proptest generator of pcap streams x filter programs run through the real binary (with and without -s); differential against a reference filter-mode model built on the reference interpreter; byte-exact comparison of the output stream",
+         "Generated streams (0..40 Ethernet frames, both magics, varied global headers) are piped into generated filter programs (patterns over NP/PL/WL/TSS/TSU, record and header fields, globals, calls; actions updating globals/locals, printing, assigning fields; action-less and pattern-less filters; end filter). stdout without -s must equal the input global header plus exactly the selected records as modified so far; with -s exactly the printed text; the printed text must equal the model's in both runs.",
+         "trusts the reference interpreter for expression/statement semantics (validated against p2sh by C02); runtime errors inside filters are don't-care", "DESIGN.md §4 C20"),
+ "C21": ("p2v-inproc", "proptest generator of file contents x read-call histories against a cursor model (in-process), the same histories on stdin of the real binary fed by generated pipe schedules, and write episodes per open mode against a file model",
+         "Contents sized around the 4096/8192-byte buffers (binary and multi-byte UTF-8 text with long lines) are read by histories of read / read(n) / read_line / read_to_string; every result must be the next slice of the content. The same through a pipe with chunked, delayed writes. Episodes opening one path with r/w/a/x on existing and missing files and writing strings, bytes, arrays and large data must leave exactly the implied bytes at program end.",
+         "read_line / read_to_string on invalid UTF-8, read_to_string(stdin) and exit() with unflushed writers are don't-care", "DESIGN.md §4 C21"),
+ "C22": ("p2v-inproc", "proptest sequences of I/O builtin calls aimed at failing targets (ENOENT, EISDIR, EEXIST, ENOTDIR, EIO via /proc/self/mem, ENOSPC via /dev/full, garbage/short/empty pcap headers), in-process and through the real binary with failing stdin/stdout; oracle: is_error of every must-fail result, no runtime error, no crash",
+         "Each scenario logs is_error of the result of open / read / read_line / read_to_string / write / flush / pcap_open / pcap_write on a prepared failing target; must-fail calls have to return an error object and the script has to reach its end. The real binary is run with stdin = garbage, empty, short, a directory and stdout = /dev/full for pcap_stream, read, read_line, write, flush, pcap_write.",
+         "EACCES cannot be provoked as root; small buffered writes to a full device may succeed if the following flush reports the failure", "DESIGN.md §4 C22"),
+ "C23": ("p2v-e2e", "proptest generator of REPL histories driven through the real run_prompt loop (scripted line source hook); oracle: reference interpreter run entry by entry over one environment plus a static resolver for rejection; differential against one `p2sh -c` program of the accepted entries",
+         "Histories of 1..12 entries (definitions, redefinitions, functions reading/updating globals, echoed expressions, continuation lines, parse errors, compile errors that mention, redefine or newly define names before the error, runtime errors between side effects, a probe after every rejected entry) are fed to the hooked binary; per-entry stdout must equal the model's, rejected entries print nothing on stdout and something on stderr; for clean histories the accepted entries as one -c program print the same text.",
+         "needs hook: scripted line source for Prompt::show; the echo of an entry that does not end in an expression statement is don't-care", "DESIGN.md §4 C23"),
+ "C24": ("p2v-e2e", "proptest generator of filter-free programs x argument vectors x invocation modes (script file, -c, '#!' file run via p2sh and executed directly, REPL); metamorphic/differential oracle between the modes",
+         "The same generated program (C02 generator with a printing probe, optional injected parse/compile/runtime error, final statement of known display) is run from a file, with -c and from a file with a shebang line; stdout must agree except for the documented echo of the final expression value under -c, stderr and exit status must agree (line numbers + 1 under a shebang line), argv must be [path, args..] / [args..] / [] (REPL).",
+         "what -c prints after a runtime error or when the last statement is not an expression statement is don't-care", "DESIGN.md §4 C24"),
 }
 
 NOT_APPLICABLE = {
@@ -103,7 +118,7 @@ def main():
         "engines": [
             {"name": "p2v-inproc", "path": "harness/", "serves_properties": sorted(k for k, v in CHECKS.items() if "inproc" in v[0]),
              "kind_free_text": "Rust harness crate that compiles the real p2sh modules in by path and drives them with proptest (choice-sequence generators) and bounded-exhaustive enumerators, 16 worker processes"},
-            {"name": "p2v-e2e", "path": "harness/", "serves_properties": sorted(k for k, v in CHECKS.items() if "e2e" in v[0]),
+            {"name": "p2v-e2e", "path": "harness/", "serves_properties": sorted([k for k, v in CHECKS.items() if "e2e" in v[0]] + [k for k in ("C08", "C21", "C22") if k in CHECKS]),
              "kind_free_text": "same harness driving the real p2sh binary (dev profile, hooks on) as a subprocess with generated scripts, argv, stdin streams"},
         ],
         "checks": checks,
